@@ -120,3 +120,15 @@ def oracle(case, reply):
 
 def nontrivial(case, reply):
     return reply.count("|") + reply.count("f:") - reply.count("f:none") >= 1 and "|" in reply or reply.count("t:[") > 1 and reply.count(":") > 6
+
+MANIFEST = {
+    "text": "Proof: schedule invariant by induction over arbitrary sequences of push / push_all / take / finish: handed-out ++ "
+            "completed ++ in-progress blocks are non-empty, concatenate to exactly the instructions fed, have offsets chained by "
+            "size, a jumpdest only first and a jump/jumpi/halting instruction only last, and are maximal; finish directly after "
+            "take never panics. The table flags the separator reads are proved equal to the specification's classes for the "
+            "regenerated Cancun table by kernel evaluation.",
+    "note": "Trusted: Lean kernel; Blocks/Model.lean tied to etk_dasm::blocks::basic::Separator by the differential run; "
+            "hypothesis JtNotEnd (no opcode both jump target and block-ending) is needed (counterexample proved) and discharged "
+            "for the regenerated table on every run.",
+    "technique": "Lean 4 invariant proof over schedules + kernel-evaluated flag table + differential correspondence",
+}
